@@ -3,6 +3,8 @@ package main
 import (
 	"bufio"
 	"bytes"
+	"crypto/md5"
+	"encoding/hex"
 	"encoding/json"
 	"encoding/xml"
 	"flag"
@@ -50,6 +52,7 @@ type concRun struct {
 	events []cEvent
 	atoms  map[string][]byte // atom -> bytes
 	byMD5  map[string]string // quoted etag -> atom
+	md5s   map[string]string // atom -> md5 hex
 	bySHA  map[string]string
 	seed   int64
 	sizes  []int
@@ -73,9 +76,40 @@ func (cr *concRun) atom(name string, r *rand.Rand) []byte {
 	cr.mu.Lock()
 	cr.atoms[name] = b
 	cr.byMD5[quoteETag(b)] = name
+	cr.md5s[name] = md5hex(b)
 	cr.bySHA[sha256hex(b)] = name
 	cr.mu.Unlock()
 	return b
+}
+
+// bigAtom registers a large body whose content depends on its name and size only; content and digests are
+// computed once per process (the part-race sweep uploads the same megabytes in every round).
+type bigAtomEntry struct {
+	b        []byte
+	md5, sha string
+}
+
+var bigAtoms = map[string]*bigAtomEntry{}
+var bigAtomsMu sync.Mutex
+
+func (cr *concRun) bigAtom(name string, size int) []byte {
+	bigAtomsMu.Lock()
+	e := bigAtoms[fmt.Sprint(name, "/", size)]
+	if e == nil {
+		b := make([]byte, size)
+		rand.New(rand.NewSource(int64(size)*31 + int64(len(name)))).Read(b)
+		copy(b, []byte(name+"|"))
+		e = &bigAtomEntry{b: b, md5: md5hex(b), sha: sha256hex(b)}
+		bigAtoms[fmt.Sprint(name, "/", size)] = e
+	}
+	bigAtomsMu.Unlock()
+	cr.mu.Lock()
+	cr.atoms[name] = e.b
+	cr.byMD5[`"`+e.md5+`"`] = name
+	cr.md5s[name] = e.md5
+	cr.bySHA[e.sha] = name
+	cr.mu.Unlock()
+	return e.b
 }
 
 func (cr *concRun) atomOfBody(b []byte) []interface{} {
@@ -83,6 +117,26 @@ func (cr *concRun) atomOfBody(b []byte) []interface{} {
 	defer cr.mu.Unlock()
 	if a, ok := cr.bySHA[sha256hex(b)]; ok {
 		return []interface{}{a}
+	}
+	// an assembled multipart object: a concatenation of whole atoms (every atom starts with "<name>|")
+	var parts []interface{}
+	rest := b
+	for len(rest) > 0 {
+		i := bytes.IndexByte(rest, '|')
+		if i < 0 {
+			parts = nil
+			break
+		}
+		a, ok := cr.atoms[string(rest[:i])]
+		if !ok || len(a) > len(rest) || !bytes.Equal(a, rest[:len(a)]) {
+			parts = nil
+			break
+		}
+		parts = append(parts, string(rest[:i]))
+		rest = rest[len(a):]
+	}
+	if len(parts) > 0 {
+		return parts
 	}
 	return []interface{}{fmt.Sprintf("?unknown-body-%d-bytes-%s", len(b), sha256hex(b)[:8])}
 }
@@ -123,7 +177,7 @@ type recWriter struct {
 	writes int
 }
 
-func newRecWriter() *recWriter { return &recWriter{hdr: http.Header{}} }
+func newRecWriter() *recWriter           { return &recWriter{hdr: http.Header{}} }
 func (w *recWriter) Header() http.Header { return w.hdr }
 func (w *recWriter) WriteHeader(s int) {
 	if w.status == 0 {
@@ -235,9 +289,9 @@ func (cr *concRun) doOp(c string, op Op, body []byte, slowBody *gatedBody, slowW
 		for _, p := range op.List("list") {
 			pp := Op(p.(map[string]interface{}))
 			cr.mu.Lock()
-			b := cr.atoms[pp.Atoms("body")[0]]
+			sum := cr.md5s[pp.Atoms("body")[0]] // (hashed when the atom was made: building the request must be quick)
 			cr.mu.Unlock()
-			fmt.Fprintf(&sb, "<Part><PartNumber>%d</PartNumber><ETag>&quot;%s&quot;</ETag></Part>", pp.I("n"), md5hex(b))
+			fmt.Fprintf(&sb, "<Part><PartNumber>%d</PartNumber><ETag>&quot;%s&quot;</ETag></Part>", pp.I("n"), sum)
 		}
 		sb.WriteString("</CompleteMultipartUpload>")
 		bb := []byte(sb.String())
@@ -353,16 +407,17 @@ func (cr *concRun) doOp(c string, op Op, body []byte, slowBody *gatedBody, slowW
 		case "Complete":
 			var cm xComplete
 			xml.Unmarshal(out, &cm)
-			var parts [][]byte
 			var listed []interface{}
+			h := md5.New()
 			for _, p := range op.List("list") {
 				pp := Op(p.(map[string]interface{}))
 				cr.mu.Lock()
-				parts = append(parts, cr.atoms[pp.Atoms("body")[0]])
+				sum, _ := hex.DecodeString(cr.md5s[pp.Atoms("body")[0]])
 				cr.mu.Unlock()
+				h.Write(sum)
 				listed = append(listed, pp["body"])
 			}
-			if cm.ETag == compositeETag(parts) {
+			if cm.ETag == `"`+hex.EncodeToString(h.Sum(nil))+"-"+fmt.Sprint(len(listed))+`"` {
 				r["cetag"] = listed
 			} else {
 				r["cetag"] = []interface{}{[]interface{}{"?wrong-composite-etag"}}
@@ -399,7 +454,7 @@ func newConcRunOpts(sysName string, versioned bool, seed int64, big bool, so Sys
 	if err != nil {
 		return nil, cEvent{}, err
 	}
-	cr := &concRun{sys: sys, atoms: map[string][]byte{}, byMD5: map[string]string{}, bySHA: map[string]string{}, seed: seed}
+	cr := &concRun{sys: sys, atoms: map[string][]byte{}, md5s: map[string]string{}, byMD5: map[string]string{}, bySHA: map[string]string{}, seed: seed}
 	cr.sizes = []int{40, 300, 5000, 40000, 70000}
 	if big {
 		cr.sizes = []int{70000, 140000, 300000}
@@ -604,18 +659,28 @@ func (cr *concRun) sorted() []cEvent {
 // gatedRun: a slow uploader or slow reader overlapped by another request.
 // scenario: "slowput:<other>" | "slowget:<other>", other in put,get,delete,list,copy,head
 func gatedRun(sysName string, scenario string, seed int64) ([]cEvent, error) {
-	cr, reset, err := newConcRun(sysName, false, seed, true)
+	// "v" prefix: in a bucket with versioning enabled; "-fresh" suffix on the first part: on a key never written
+	versioned := strings.HasPrefix(scenario, "v")
+	cr, reset, err := newConcRun(sysName, versioned, seed, true)
 	if err != nil {
 		return nil, err
 	}
 	defer cr.sys.Close()
 	reset.Scenario = scenario
 	cr.record(reset)
+	scenario = strings.TrimPrefix(scenario, "v")
 	r := rand.New(rand.NewSource(seed))
 	kb := keyBytes("k1")
+	finalKeys := []string{"k1", "k2"}
+	if i := strings.Index(scenario, "-fresh"); i >= 0 {
+		scenario = scenario[:i] + scenario[i+len("-fresh"):]
+		kb = keyBytes("k3")
+		finalKeys = append(finalKeys, "k3")
+	}
+	var puts []Op // the uploads to the contended key, for the read-back of their version ids
 	// an existing object written sequentially
 	b0 := cr.atom("w0_0", r)
-	cr.doOp("0", Op{"op": "PutObject", "b": concBucket, "k": kb, "body": []interface{}{"w0_0"}, "meta": []interface{}{}, "vid": ""}, b0, nil, nil)
+	cr.doOp("0", Op{"op": "PutObject", "b": concBucket, "k": keyBytes("k1"), "body": []interface{}{"w0_0"}, "meta": []interface{}{}, "vid": ""}, b0, nil, nil)
 	b1 := cr.atom("w0_1", r)
 	cr.doOp("0", Op{"op": "PutObject", "b": concBucket, "k": keyBytes("k2"), "body": []interface{}{"w0_1"}, "meta": []interface{}{}, "vid": ""}, b1, nil, nil)
 
@@ -627,9 +692,11 @@ func gatedRun(sysName string, scenario string, seed int64) ([]cEvent, error) {
 	case "slowput":
 		body := cr.atom("w1_0", r)
 		gb := &gatedBody{data: body, gate: gate, atGate: atGate}
+		opA := Op{"op": "PutObject", "b": concBucket, "k": kb, "body": []interface{}{"w1_0"}, "meta": []interface{}{}, "vid": ""}
+		puts = append(puts, opA)
 		go func() {
 			defer close(doneA)
-			cr.doOp("1", Op{"op": "PutObject", "b": concBucket, "k": kb, "body": []interface{}{"w1_0"}, "meta": []interface{}{}, "vid": ""}, body, gb, nil)
+			cr.doOp("1", opA, body, gb, nil)
 		}()
 	case "slowget":
 		w := newRecWriter()
@@ -651,7 +718,9 @@ func gatedRun(sysName string, scenario string, seed int64) ([]cEvent, error) {
 		switch parts[1] {
 		case "put":
 			body := cr.atom("w2_0", r)
-			cr.doOp("2", Op{"op": "PutObject", "b": concBucket, "k": kb, "body": []interface{}{"w2_0"}, "meta": []interface{}{}, "vid": ""}, body, nil, nil)
+			opB := Op{"op": "PutObject", "b": concBucket, "k": kb, "body": []interface{}{"w2_0"}, "meta": []interface{}{}, "vid": ""}
+			puts = append(puts, opB)
+			cr.doOp("2", opB, body, nil, nil)
 		case "get":
 			cr.doOp("2", Op{"op": "GetObject", "b": concBucket, "k": kb}, nil, nil, nil)
 		case "head":
@@ -681,7 +750,64 @@ func gatedRun(sysName string, scenario string, seed int64) ([]cEvent, error) {
 			return nil, fmt.Errorf("scenario %s: request did not return after the gate was opened (deadlock?)", scenario)
 		}
 	}
-	cr.record(cr.finalSnapshot([]string{"k1", "k2"}))
+	// every version id handed out names exactly that upload, afterwards too
+	for _, p := range puts {
+		if v := p.S("vid"); v != "" {
+			cr.doOp("0", Op{"op": "GetObjectVersion", "b": concBucket, "k": kb, "vid": v}, nil, nil, nil)
+		}
+	}
+	cr.record(cr.finalSnapshot(finalKeys))
+	return cr.sorted(), nil
+}
+
+// partRaceRun: a part is uploaded again (with a different body) while a completion naming the old
+// ETags is under way; the two requests are started dA and dB after a common instant.  The leading
+// parts are large so that validating and assembling takes a while (milliseconds).
+func partRaceRun(sysName string, dA, dB time.Duration, seed int64) ([]cEvent, error) {
+	cr, reset, err := newConcRun(sysName, false, seed, false)
+	if err != nil {
+		return nil, err
+	}
+	defer cr.sys.Close()
+	reset.Scenario = fmt.Sprintf("partrace:%v/%v", dA, dB)
+	cr.record(reset)
+	kb := keyBytes("k1")
+	init := Op{"op": "Initiate", "b": concBucket, "k": kb, "meta": []interface{}{}, "uid": ""}
+	cr.doOp("0", init, nil, nil, nil)
+	uid := init.S("uid")
+	var list []interface{}
+	const nparts = 4
+	for n := 1; n <= nparts; n++ {
+		name := fmt.Sprintf("p0_%d", n)
+		size := 4 << 20
+		if n == nparts {
+			size = 2000
+		}
+		body := cr.bigAtom(name, size)
+		cr.doOp("0", Op{"op": "UploadPart", "b": concBucket, "k": kb, "uid": uid, "n": float64(n), "body": []interface{}{name}}, body, nil, nil)
+		list = append(list, map[string]interface{}{"n": float64(n), "body": []interface{}{name}})
+	}
+	// (the new body is large: its upload is looked up, then hashed for milliseconds, then stored)
+	again := cr.bigAtom("p2_again", 4<<20)
+	start := make(chan struct{})
+	var wg sync.WaitGroup
+	wg.Add(2)
+	go func() {
+		defer wg.Done()
+		<-start
+		time.Sleep(dA)
+		cr.doOp("1", Op{"op": "Complete", "b": concBucket, "k": kb, "uid": uid, "list": list, "vid": ""}, nil, nil, nil)
+	}()
+	go func() {
+		defer wg.Done()
+		<-start
+		time.Sleep(dB)
+		cr.doOp("2", Op{"op": "UploadPart", "b": concBucket, "k": kb, "uid": uid, "n": float64(nparts), "body": []interface{}{"p2_again"}}, again, nil, nil)
+	}()
+	close(start)
+	wg.Wait()
+	cr.doOp("0", Op{"op": "GetObject", "b": concBucket, "k": kb}, nil, nil, nil)
+	cr.record(cr.finalSnapshot([]string{"k1"}))
 	return cr.sorted(), nil
 }
 
@@ -791,6 +917,7 @@ func cmdConc(args []string) {
 	nkeys := fs.Int("keys", 2, "keys")
 	trace := fs.String("trace", "", "NDJSON output")
 	gated := fs.Bool("gated", true, "include the slow uploader / slow reader scenarios")
+	partRace := fs.Int("partrace", 0, "rounds of the re-upload-during-complete sweep")
 	seqOps := fs.Int("seq", 0, "instead of concurrent runs: sequential random histories of this many operations")
 	out := fs.String("out", "", "summary")
 	fs.Parse(args)
@@ -839,6 +966,20 @@ func cmdConc(args []string) {
 				write(evs, sysName)
 			}
 		}
+		// a part uploaded again while the completion is under way: a sweep over the relative start
+		for i := 0; i < *partRace; i++ {
+			d := time.Duration(i-*partRace*3/4) * 400 * time.Microsecond
+			dA, dB := time.Duration(0), d
+			if d < 0 {
+				dA, dB = -d, 0
+			}
+			evs, err := partRaceRun(sysName, dA, dB, *seed+int64(i))
+			if err != nil {
+				problems = append(problems, sysName+": "+err.Error())
+				continue
+			}
+			write(evs, sysName)
+		}
 		if *gated {
 			for _, first := range []string{"slowput", "slowget"} {
 				for _, other := range []string{"put", "get", "head", "delete", "list", "copyonto", "copyfrom"} {
@@ -848,6 +989,20 @@ func cmdConc(args []string) {
 						continue
 					}
 					write(evs, sysName)
+				}
+			}
+			if sys0, err := NewSystem(sysName, SysOpts{}); err == nil {
+				ver := sys0.Versioned()
+				sys0.Close()
+				if ver {
+					for _, sc := range []string{"vslowput:put", "vslowput:delete", "vslowput:get", "vslowput-fresh:put", "vslowput-fresh:delete", "vslowput:copyonto"} {
+						evs, err := gatedRun(sysName, sc, *seed)
+						if err != nil {
+							problems = append(problems, sysName+": "+err.Error())
+							continue
+						}
+						write(evs, sysName)
+					}
 				}
 			}
 			for _, other := range []string{"uploadpart", "uploadpart-other", "complete", "get", "initiate"} {
